@@ -53,6 +53,10 @@ THEOREMS = {
         "Shroud.Lex.block_comment_c",
         "Shroud.Lex.trailing_comment",
         "Shroud.Lex.commentEdit_accepted",
+        "Shroud.Gen.Guards.guarded_statements_comment_only",
+        "Shroud.Gen.Guards.option_uses_classified",
+        "Shroud.Gen.Guards.comment_lists_clean",
+        "Shroud.Gen.Guards.guards_found",
     ]
 }
 
@@ -449,7 +453,7 @@ def lexer_correspondence(ctx, lean_ok, file_texts, thorough):
         d = digest(py_tokens(lang, t))
         if d != o:
             bad.append({"lang": lang, "text": t[:300], "lean": o, "python": d})
-        if len(t) > 3:
+        if len(t) > 3 and any(x in t for x in ("//", "/*", "!", '"', "'", "&")):
             ctx.nontrivial(("lex", lang, hashlib.sha1(t.encode()).hexdigest()[:12]))
     ctx.count(len(cases))
     ctx.note("lexer_correspondence", {"cases": len(cases), "real_files": nreal, "disagreements": len(bad)})
